@@ -99,7 +99,13 @@ def build(tree, thick, ops=("mean", "sum"), with_dx=True, resolution=None, vecto
             b._attrs[nm] = v
         return b
 
-    def kernel_stub(**kw):
+    kparams = [a.arg for a in tree.func("plot/utils.py::evaluate_on_grid").node.args.args]
+
+    def kernel_stub(*pos, **kw):
+        # arguments bound to the kernel's own parameter names, however the call spells them (positionally or by keyword)
+        if len(pos) > len(kparams) or any(n in kw for n in kparams[:len(pos)]):
+            raise Raised("TypeError", None, "evaluate_on_grid() called with arguments that do not bind")
+        kw = dict(zip(kparams, pos), **kw)
         rec.kernel = kw
         cv = kw.get("cell_values")
         if not isinstance(cv, Stack):
